@@ -628,10 +628,15 @@ func (w *World) unfreezeVerdict(uf *ssa.Function) unfreezeResult {
 			return "REW?" + w.canonCall(c.Common(), 0)
 		}
 		if arms := w.ledgerArms(c); len(arms) == 1 && arms[0].Method == "DelFinality" {
-			if w.canonCall(c.Common(), 0) == "recv.frozenLedger.DelFinality(ledger.ToLedgerKey(p0.TxHash))" {
+			cs := w.canonCall(c.Common(), 0)
+			if karg := w.ledgerItemArg(c); karg != nil {
+				// `s.Key()` of a record is the derivation its Key method returns
+				cs = strings.Replace(cs, "("+w.Canon(karg)+")", "("+w.ownKeyCanon(karg)+")", 1)
+			}
+			if cs == "recv.frozenLedger.DelFinality(ledger.ToLedgerKey(p0.TxHash))" {
 				return "DEL"
 			}
-			return "DEL?" + w.canonCall(c.Common(), 0)
+			return "DEL?" + cs
 		}
 		return ""
 	}
